@@ -463,7 +463,9 @@ func (c *ckptRun) signCase(k *ckptKeys, name string, n, ts int64, root [32]byte,
 	}
 	valid := n >= 0 && ts >= 0 && ckptValidName(name) && len(name) <= 255
 	if err != nil {
-		c.line("signed %s %d %d %s - = ERR", ckptHx([]byte(name)), n, ts, ckptHx(root[:]))
+		if ckptValidName(name) { // name validity (UTF-8, unicode.IsSpace, '+') is a precondition the model does not carry
+			c.line("signed %s %d %d %s - = ERR", ckptHx([]byte(name)), n, ts, ckptHx(root[:]))
+		}
 		c.s.Count("sign/" + class + "/error")
 		if valid {
 			c.fail("sign-fails", "signTreeHead failed on a valid tree head: "+err.Error(), cs)
@@ -957,8 +959,7 @@ func (c *ckptRun) noteMutations(k *ckptKeys, sg, other *ckptSigned) {
 	}
 	c.noteCase(k, sg, j(text, raw(sg.name, v1.KeyHash(), append(append([]byte(nil), own[0].sig...), 0)), cos), now, "note-blob-trailing-byte", false)
 	// byte-level: every position class of the serialized note
-	lineStart := 0
-	idx := 0
+	sel, sel3 := c.r.Intn(23), c.r.Intn(3)
 	msg := sg.note
 	sigStart := bytes.LastIndex(msg, []byte("\n\n")) + 2
 	for pos := 0; pos < len(msg); pos++ {
@@ -999,15 +1000,16 @@ func (c *ckptRun) noteMutations(k *ckptKeys, sg, other *ckptSigned) {
 		} else if pos == sigStart-1 || pos == sigStart-2 {
 			class = "note-blank-line"
 		}
-		_ = lineStart
 		quick := !(c.o.Tier == "thorough" || c.search)
-		if quick && (class == "note-other-sigline" || class == "note-sig-b64-body") && pos%23 != idx%23 {
+		if quick && (class == "note-other-sigline" || class == "note-sig-b64-body") && pos%23 != sel {
 			continue
 		}
-		if quick && class == "note-text" && pos%3 != idx%3 {
+		if !quick && class == "note-other-sigline" && pos%5 != sel%5 {
 			continue
 		}
-		idx++
+		if quick && class == "note-text" && pos%3 != sel3 {
+			continue
+		}
 		m := append([]byte(nil), msg...)
 		m[pos] ^= byte(1 << uint(c.r.Intn(7)))
 		c.noteCase(k, sg, m, now, class, false)
